@@ -9,13 +9,13 @@ for order 2).  This stream therefore covers the size axis: 1-D grids of 64..700 
 2-D grids up to 20 x 20.
 
 Tie: the read-off linear map B must satisfy the model's defining relation (P + 2^-26 I) (B / c) = D^T with the exact
-integer P and D of the Lean model (dims <= 96; 1e-9).
+integer P and D of the Lean model (thorough tier, dims <= 96; 1e-9 -- generating the operators costs ~2 s of Lean time).
 Oracle (implementation only): for smooth directions w (low cosine modes, a random twice-integrated vector) the
 bilinear form h(w, x) = w^T H x of the object's own log-density is evaluated by exact second differences (from the
 object's own gradient when the normalising constant of its logpdf is not finite) and
     || B^T H w ||^2 = w^T H w        (i.e.  H (B B^T) H = H  along w)
-is demanded with relative tolerance max(1e-7, 4 sqrt(eps) prec ||w||^2 / w^T H w)  -- twice the proved perturbation
-of the coded regularisation sqrt(eps).
+is demanded with relative tolerance max(1e-7, 20 sqrt(eps) prec ||w||^2 / w^T H w)  -- ten times the proved perturbation
+(2 sqrt(eps) / rho, theorem neumann_eig_bound) of the coded regularisation sqrt(eps).
 """
 import math
 import numpy as np
@@ -62,7 +62,7 @@ def run_gmrf_large(ctx, cuqi, thorough, H):
         rows = int(G._diff_op.shape[0])
         rng = H.Script(H.unit_plan(rows))
         s, err, untouched = H.call_sample(G, rows + 1, rng)
-        m = dict(key=key, desc=desc, G=G, dim=dim, rows=rows, s=s, err=err, prec=prec, mean=mean, pd=pd, order=order, n=n, tie=(pd == 1 and dim <= 96))
+        m = dict(key=key, desc=desc, G=G, dim=dim, rows=rows, s=s, err=err, prec=prec, mean=mean, pd=pd, order=order, n=n, tie=(thorough and pd == 1 and dim <= 96))
         if m["tie"]:
             lines.append(f"gmrfP {order} neumann {n} {pd}")
             lines.append(f"gmrfD {order} neumann {n} {pd}")
@@ -73,6 +73,7 @@ def run_gmrf_large(ctx, cuqi, thorough, H):
     outs = ctx.lean.drive(lines) if lines else []
     pos = 0
     worst, skipped, grad_used = {}, {}, {}
+    max_res = [0.0]
     for m in metas:
         key, desc, G, dim, rows = m["key"], m["desc"], m["G"], m["dim"], m["rows"]
         ctx.case("gmrf-large", desc)
@@ -99,6 +100,7 @@ def run_gmrf_large(ctx, cuqi, thorough, H):
             pos += 2
             res = (P + SQRT_EPS * np.eye(dim)) @ (B / c) - D.T
             r = float(np.abs(res).max())
+            max_res[0] = max(max_res[0], r)
             if not (np.allclose(offset, m["mean"], rtol=0, atol=1e-9) and r <= 1e-9):
                 jj = int(np.argmax(np.abs(res).max(axis=0)))
                 ctx.disagree(key, {**desc, "normal_vector": f"unit vector e_{jj}"}, "(P + 2^-26 I) (draw - mean) sqrt(prec) = D^T xi  (residual <= 1e-9)",
@@ -136,7 +138,7 @@ def run_gmrf_large(ctx, cuqi, thorough, H):
             lhs = float(hwb @ hwb)
             dev = abs(lhs / hww - 1.0)
             rho = hww / (m["prec"] * float(w @ w))            # Rayleigh quotient of the structure matrix
-            tol = max(1e-7, 4.0 * SQRT_EPS / rho)
+            tol = max(1e-7, 20.0 * SQRT_EPS / rho)
             worst[key] = max(worst.get(key, 0.0), dev / tol)
             ctx.case("gmrf-large-direction", {**desc, "direction": nm})
             if dev > tol:
@@ -146,4 +148,4 @@ def run_gmrf_large(ctx, cuqi, thorough, H):
                          "variance of the draws along a smooth direction is not the one implied by the log-density of the same object (covariance is not the pseudo-inverse of the precision)")
                 break
     ctx.extra_cov["gmrf_large"] = {"configs": hist, "worst_deviation_over_tolerance": {k: round(v, 4) for k, v in worst.items()},
-                                   "directions_skipped_nonfinite": skipped, "density_shape_from_gradient": grad_used}
+                                   "tie_max_residual_vs_tol_1e-9": max_res[0], "directions_skipped_nonfinite": skipped, "density_shape_from_gradient": grad_used}
